@@ -5,7 +5,7 @@ Implement YAML Path.
 Copyright 2019, 2020, 2021 William W. Kimball, Jr. MBA MSIS
 """
 from collections import deque
-from typing import Deque, List, Optional, Union
+from typing import Any, Deque, List, Optional, Union
 
 from yamlpath.types import PathAttributes, PathSegment
 from yamlpath.exceptions import (
@@ -86,7 +86,10 @@ class YAMLPath:
 
         The path separator is ignored for this comparison.  This is deliberate
         and allows "some.path[1]" == "/some/path[1]" because both forms of the
-        same path yield exactly the same data.
+        same path yield exactly the same data.  For the same reason, the
+        parsed segments are compared rather than any text, so the escaping or
+        demarcation of a segment is ignored, too:  "dotted\\.key" ==
+        "'dotted.key'" == "/dotted.key".
 
         Parameters:
         1. other (object) The other YAMLPath to compare against.
@@ -97,14 +100,10 @@ class YAMLPath:
             return False
 
         equiv_this = YAMLPath(self)
-        equiv_this.separator = PathSeparators.FSLASH
-        cmp_this = str(equiv_this)
-
         equiv_that = YAMLPath(other)
-        equiv_that.separator = PathSeparators.FSLASH
-        cmp_that = str(equiv_that)
-
-        return cmp_this == cmp_that
+        return (
+            YAMLPath._comparable_segments(equiv_this.escaped)
+            == YAMLPath._comparable_segments(equiv_that.escaped))
 
     def __ne__(self, other: object) -> bool:
         """Indicate non-equivalence of two YAMLPaths."""
@@ -934,6 +933,29 @@ class YAMLPath:
                     False, PathSearchMethods.REGEX, ".", search_term)
 
         return (coal_type, coal_value)
+
+    @staticmethod
+    def _comparable_segments(segments: Deque[PathSegment]) -> List[Any]:
+        """
+        Reduce parsed segments to values which compare by their content.
+
+        The terms of Search, Search Keyword, and Collector segments are objects
+        which compare by identity, so they are replaced by their properties.
+        """
+        comparable: List[Any] = []
+        for (segment_type, segment_attrs) in segments:
+            if isinstance(segment_attrs, SearchTerms):
+                comparable.append((
+                    segment_type, segment_attrs.inverted,
+                    segment_attrs.method, segment_attrs.attribute,
+                    segment_attrs.term))
+            elif isinstance(
+                segment_attrs, (SearchKeywordTerms, CollectorTerms)
+            ):
+                comparable.append((segment_type, str(segment_attrs)))
+            else:
+                comparable.append((segment_type, segment_attrs))
+        return comparable
 
     @staticmethod
     def _stringify_yamlpath_segments(
